@@ -132,10 +132,11 @@ def run_exact(ctx, case, shape, name, linear):
     ctx.count(f'{name}.kleene-steps={min(k, 9)}')
     fgg, info = semgen.build(sh, name, torch.float64)
     for method in ('fixed-point', 'newton', 'linear'):
-        for kmax in (1000, 0, 1, 2):
+        for kmax in (1000, 0, 1, 2, 3):
             res, warns, err = call(fgg, method=method, semiring=semgen.semiring_of(name, torch.float64), kmax=kmax, tol=1e-8)
             cfg = dict(semiring=name, method=method, kmax=kmax)
             ctx.evaluations += 1
+            pipeline(ctx, case, sh, name, method, kmax, res, warns, err, info)
             ctx.count(f'{name}.{method}.' + ('raise' if err else 'warn' if warns else 'ok'))
             if err is not None:
                 if method == 'linear' and isinstance(err, ValueError) and not linear:
@@ -153,6 +154,37 @@ def run_exact(ctx, case, shape, name, linear):
                 ctx.fail(f'{name}/{method} (kmax={kmax}) returned a value that is not the least fixed point, without a warning',
                          dict(case, config=cfg), out, [[str(c) for c in s] if s is not None else None for s in lfp],
                          tags=['not-lfp', name, method, f'kmax={kmax}'])
+
+
+def pipeline(ctx, case, sh, name, method, kmax, res, warns, err, info):
+    """the model of the driver loop (`Pipe.sumProducts`: SCC order by the Tarjan model, per-component method downgrade,
+    fixed_point with its budget and warning, linear with its ValueError) against the implementation, outcome by outcome:
+    exception, warning flag, and the returned value cell by cell - also when it is an unconverged iterate"""
+    rep = ctx.driver.ask(f'P.sumProducts {name} {gen.enc_shape(sh)} {method} {kmax}')
+    t = Toks(rep)
+    cfg = dict(semiring=name, method=method, kmax=kmax)
+    if t.next() == 'raise':
+        ctx.count(f'pipeline.{name}.{method}.raise')
+        if not isinstance(err, ValueError):
+            ctx.disagree('Pipe.sumProducts raises ValueError (a rule with two edges in its own component), sum_products does not',
+                         dict(case, config=cfg), repr(err) if err else 'returned', 'ValueError')
+        return
+    warned = t.bool(); unmodelled = t.bool()
+    val = semgen.parse_val(t, (lambda: t.next() == 'T') if name == 'bool' else None)
+    if unmodelled:
+        ctx.count(f'pipeline.{name}.{method}.newton-proper-not-modelled')
+        return
+    if err is not None:
+        ctx.disagree(f'sum_products raised {type(err).__name__}, Pipe.sumProducts returns a value', dict(case, config=cfg), repr(err), rep[:200])
+        return
+    ctx.count(f'pipeline.{name}.{method}.' + ('warn' if warned else 'ok'))
+    if bool(warns) != warned:
+        ctx.disagree(f'warning flag: sum_products {"warned" if warns else "did not warn"}, Pipe.sumProducts {"warns" if warned else "does not"}',
+                     dict(case, config=cfg), warns, warned)
+    out = [semgen.dense_list(res[x]) for x in info['XL']]
+    if not all(semgen.val_matches(o, s, name, torch.float64) for o, s in zip(out, val)):
+        ctx.disagree('value: sum_products differs from Pipe.sumProducts (same method, same budget)', dict(case, config=cfg), out,
+                     [[str(c) for c in s] if s is not None else None for s in val])
 
 
 def run_real(ctx, case, shape, linear):
